@@ -3,22 +3,25 @@
      every entry of an array is >= 0:   nonneg a := Forall (fun x => 0 <= x) (dat a)
      (for a well-formed 2-D array this is the same as  forall i j in range, 0 <= get 0 a [i; j] : nonneg_iff_get)
 
-     1. sweep_nonneg     one node update (Fteik2d.sweep) keeps every entry >= 0
-     2. sweep2d_nonneg   one pass (Fteik2d.sweep2d) keeps every entry >= 0
-     3. init_nonneg      the initial state (fteik2d_p1 ; fteik2d_p2) has every traveltime >= 0
-     4. fteik2d_nonneg   every traveltime returned by fteik2d is >= 0, and so is vzero
+     1. sweep_nonneg (+ _get)     one node update (Fteik2d.sweep) keeps every entry >= 0
+     2. sweep2d_nonneg (+ _get)   one pass (Fteik2d.sweep2d) keeps every entry >= 0
+     3. init_nonneg_raw, init_nonneg   the initial state (fteik2d_p1 ; fteik2d_p2) has every traveltime >= 0, vzero >= 0
+                                  (fteik2d_p2_nonneg: the initialisation never writes a negative time, whatever the spacings)
+     4. fteik2d_nonneg (+ _get)   every traveltime returned by fteik2d is >= 0, and so is vzero
 
    No hypothesis on shapes or index ranges is needed: `get` on an out-of-range index returns an entry or the default 0,
    `set` on an out-of-range index overwrites an entry or nothing.  The only hypotheses are dz > 0, dx > 0 and
-   "every slowness is >= 0".
+   "every slowness is >= 0" (and for the initialisation alone not even the first two).
 
    The one non-trivial point is the 4-point plane-wave operator: under its admissibility test it returns a value
-   >= tev (four_point_ge_tev).  The 3-point operators add dx * sqrt(..) >= 0 to te (resp. tv) (Coq's sqrt is 0 on
-   negative reals), the spherical operator is replaced by Big when it is < tv or < te. *)
+   >= tev (four_point_ge_tev; the radicand is >= 0 there: four_point_radicand_nonneg).  The 3-point operators add
+   dx * sqrt(..) >= 0 to te (resp. dz * sqrt(..) to tv) (Coq's sqrt is 0 on negative reals, so no side condition), the
+   spherical operator is replaced by Big when it is < tv or < te, the 1D operators add dz * s, dx * s with s >= 0.
+   In the initialisation a new time is only written when it passed  tnew >= tt[previous node]. *)
 From Coq Require Import ZArith List Bool Lia Reals Lra Psatz.
 From FT.lib Require Import Num Arr ArrLemmas.
 From FT.gen Require Import Fteik2d.
-From FT.proofs Require Import OperatorsR.
+From FT.proofs Require Import OperatorsR Solve2dProofs.
 Import ListNotations.
 Open Scope R_scope.
 
@@ -153,6 +156,42 @@ Qed.
 Example four_point_ge_tev_ex : 1 <= four_point 2 (5/2) 1 1 (1 / 1 / 1) (1 / 2 / 2).
 Proof. apply four_point_ge_tev; lra. Qed.
 
+(* side remark (not needed for the sign): under the same test the radicand of the 4-point operator is >= 0, so the
+   square root taken there is a genuine one *)
+Lemma four_point_radicand_nonneg tv te tev vref dz dx :
+  0 < dz -> 0 < dx -> 0 <= vref ->
+  tv <= te + dx * vref -> te <= tv + dz * vref ->
+  let ta := tev + te - tv in let tb := tev - te + tv in
+  0 <= 4 * (vref * vref) * (1 / dz / dz + 1 / dx / dx) - (1 / dz / dz) * (1 / dx / dx) * ((ta - tb) * (ta - tb)).
+Proof.
+  intros Hdz Hdx Hv H1 H2 ta tb.
+  set (p := / dz). set (q := / dx).
+  assert (Hp : 0 < p) by (apply Rinv_0_lt_compat; exact Hdz).
+  assert (Hq : 0 < q) by (apply Rinv_0_lt_compat; exact Hdx).
+  assert (Epz : p * dz = 1) by (unfold p; apply Rinv_l; lra).
+  assert (Eqx : q * dx = 1) by (unfold q; apply Rinv_l; lra).
+  replace (1 / dz / dz) with (p * p) by (unfold p; field; lra).
+  replace (1 / dx / dx) with (q * q) by (unfold q; field; lra).
+  set (w := te - tv). replace (ta - tb) with (2 * w) by (unfold ta, tb, w; ring).
+  assert (W1 : w * p <= vref).
+  { assert (w * p <= (dz * vref) * p) by (apply Rmult_le_compat_r; unfold w; lra).
+    replace (dz * vref * p) with (vref * (p * dz)) in H by ring. rewrite Epz in H. lra. }
+  assert (W2 : - w * q <= vref).
+  { assert (- w * q <= (dx * vref) * q) by (apply Rmult_le_compat_r; unfold w; lra).
+    replace (dx * vref * q) with (vref * (q * dx)) in H by ring. rewrite Eqx in H. lra. }
+  assert (Hk : (p * q * w) * (p * q * w) <= vref * vref * (p * p + q * q)).
+  { destruct (Rle_dec 0 w) as [Hw|Hw].
+    - assert (P1 : 0 <= w * p) by (apply Rmult_le_pos; lra).
+      assert (S1 : (w * p) * (w * p) <= vref * vref) by nra.
+      assert (S2 : 0 <= (vref * vref - (w * p) * (w * p)) * (q * q)) by (apply Rmult_le_pos; nra).
+      nra.
+    - assert (P1 : 0 <= - w * q) by (apply Rmult_le_pos; lra).
+      assert (S1 : (- w * q) * (- w * q) <= vref * vref) by nra.
+      assert (S2 : 0 <= (vref * vref - (- w * q) * (- w * q)) * (p * p)) by (apply Rmult_le_pos; nra).
+      nra. }
+  nra.
+Qed.
+
 (* ------------------------------------------------------------------------------------------ *)
 (* 1. one node update                                                                           *)
 (* ------------------------------------------------------------------------------------------ *)
@@ -240,15 +279,19 @@ Proof.
   - apply (nonneg_iff_get tt _ _ Wt St), Ht.
 Qed.
 
-(* non-vacuity: a 2x2-node grid over one cell of slowness 2 (OperatorsR.ex_tt, ex_slow), node (1,1) updated *)
-Lemma ex_slow_nonneg : nonneg ex_slow.
-Proof. unfold nonneg, ex_slow. cbn [dat]. repeat constructor; lra. Qed.
-Lemma ex_tt_nonneg : nonneg (ex_tt (8/5) (6/5)).
-Proof. unfold nonneg, ex_tt. cbn [dat]. repeat constructor; lra. Qed.
+(* non-vacuity: a model of 2 x 2 cells of slowness 1 (3 x 3 nodes), unit spacings; three nodes already reached, the
+   others at Big; node (1,1) is updated in the first sweep direction, source far away (plane-wave branch) *)
+Definition ex2 : arr R := mkarr [2%Z; 2%Z] [1; 1; 1; 1].
+Definition ex2_tt : arr R := mkarr [3%Z; 3%Z] [0; 1; 2; 1; 100000; 100000; 2; 100000; 100000].
+Definition ex2_sgn : arr Z := full [3%Z; 3%Z; 2%Z] 0%Z.
+Lemma ex2_nonneg : nonneg ex2.
+Proof. unfold nonneg, ex2. cbn [dat]. repeat constructor; lra. Qed.
+Lemma ex2_tt_nonneg : nonneg ex2_tt.
+Proof. unfold nonneg, ex2_tt. cbn [dat]. repeat constructor; lra. Qed.
 Example sweep_nonneg_ex :
-  nonneg (fst (sweep (ex_tt (8/5) (6/5)) ex_sgn ex_slow (1, 1, 1 / 1, 1 / 1, 1 / 1 / 1, 1 / 1 / 1) 100 100 100 100 2
-                     1 1 1 1 1 1 2 2 false)).
-Proof. apply sweep_nonneg; [lra | lra | apply ex_slow_nonneg | apply ex_tt_nonneg]. Qed.
+  nonneg (fst (sweep ex2_tt ex2_sgn ex2 (1, 1, 1 / 1, 1 / 1, 1 / 1 / 1, 1 / 1 / 1) 100 100 100 100 1
+                     1 1 1 1 1 1 3 3 false)).
+Proof. apply sweep_nonneg; [lra | lra | apply ex2_nonneg | apply ex2_tt_nonneg]. Qed.
 
 (* ------------------------------------------------------------------------------------------ *)
 (* 2. one pass                                                                                  *)
@@ -277,5 +320,201 @@ Corollary sweep2d_nonneg_get (tt : arr R) ttsgn (slow : arr R) (dz dx zsi xsi zs
 Proof. intros Hdz Hdx Hs Ht p q. apply get_nonneg, sweep2d_nonneg; assumption. Qed.
 
 Example sweep2d_nonneg_ex :
-  nonneg (fst (sweep2d (ex_tt (8/5) (6/5)) ex_sgn ex_slow 1 1 100 100 100 100 2 2 2 false)).
-Proof. apply sweep2d_nonneg; [lra | lra | apply ex_slow_nonneg | apply ex_tt_nonneg]. Qed.
+  nonneg (fst (sweep2d ex2_tt ex2_sgn ex2 1 1 100 100 100 100 1 3 3 false)).
+Proof. apply sweep2d_nonneg; [lra | lra | apply ex2_nonneg | apply ex2_tt_nonneg]. Qed.
+
+(* ------------------------------------------------------------------------------------------ *)
+(* 3. the initial state                                                                         *)
+(* ------------------------------------------------------------------------------------------ *)
+Lemma t_ana_nonneg i j (dz dx zsa xsa vzero : R) : 0 <= vzero -> 0 <= t_ana i j dz dx zsa xsa vzero.
+Proof. intros Hv. rewrite t_ana_exact. apply Rmult_le_pos; [exact Hv | apply sqrt_pos]. Qed.
+
+Definition nnO (r : arr R * arr R * arr Z) : Prop := nonneg (fst (fst r)).   (* result      (tt, ttgrad, ttsgn) *)
+Definition nnL (s : arr R * arr R * arr Z) : Prop := nonneg (snd (fst s)).   (* loop state  (td, tt, ttsgn)     *)
+Definition nnI (s : arr R * arr Z) : Prop := nonneg (fst s).                 (* guarded update (tt, ttsgn)      *)
+Lemma nnL_elim s : nnL s -> nonneg (snd (fst s)). Proof. exact (fun h => h). Qed.
+Lemma for_list_nnL l (b : Z -> arr R * arr R * arr Z -> arr R * arr R * arr Z) s :
+  nnL s -> (forall i st, nnL st -> nnL (b i st)) -> nnL (for_list l b s).
+Proof. intros H0 Hb. apply (for_list_inv nnL); auto. Qed.
+Lemma if_nnI (c : bool) a b : (c = true -> nnI a) -> nnI b -> nnI (if c then a else b).
+Proof. destruct c; auto. Qed.
+
+(* goal 0 <= v for a value written into the traveltime grid: an analytic time (recorded when its `t_anad` binding is
+   met), the constant 0, or a `tnew` that passed the guard  tnew >= tt[previous node] && tnew >= td[k]  *)
+Ltac nn_val :=
+  first
+  [ assumption
+  | cbn [nofZ NumR]; lra
+  | match goal with E : (ngeb ?t (get _ ?a _) && _) = true |- 0 <= ?t =>
+      apply andb_true_iff in E; destruct E as [E _]; unfold ngeb in E; cbn [nleb NumR] in E; apply Rleb_true in E;
+      eapply Rle_trans; [ apply (get_nonneg a); assumption | exact E ] end ].
+Ltac nn_arr := first [ assumption | apply nonneg_set; [ assumption | nn_val ] ].
+Ltac nn_leaf := unfold nnO, nnL, nnI; cbn beta iota delta [fst snd]; assumption.
+
+(* Walking a generated let-chain.  Conversion between two large let-terms is very expensive (every let is expanded on
+   both sides), so a chain  Q (let x1 := v1 in ... let xn := vn in fin)  is handled in ONE step: every binding is posed
+   as a local definition (cheap), the goal is replaced by  Q fin  (`change_no_check`: the kernel checks it at Qed), and
+   only then the definitions are visited in program order (`walk`/`proc`):
+     - a loop `for_list l b s` on the state (td, tt, ttsgn): invariant "tt is non-negative", its body is a new chain;
+     - a guarded update `if c then a else b` of (tt, ttsgn): both branches are new chains, `c = true` is kept;
+     - an array: its non-negativity is recorded when it can be shown (the traveltime grid), not otherwise (`td`, gradient);
+     - a triple `t_anad ..`: its first component is >= 0;
+   after which the body of the definition is forgotten. *)
+Ltac peel_then t acc k :=
+  lazymatch t with
+  | (let x := ?v in @?F x) =>
+      let x' := fresh "v" in
+      pose (x' := v);
+      let b := eval cbv beta in (F x') in
+      peel_then b constr:((acc, x')) k
+  | _ => k t acc
+  end.
+
+Ltac region :=
+  lazymatch goal with |- ?Q ?t =>
+    let t' := eval cbv beta in t in
+    peel_then t' constr:(I) ltac:(fun fin acc => change_no_check (Q fin); walk acc; nn_leaf)
+  end
+with walk acc :=
+  lazymatch acc with
+  | (?rest, ?x) => walk rest; proc x
+  | _ => idtac
+  end
+with proc x :=
+  let v := eval cbv delta [x] in x in
+  let ty := type of x in
+  lazymatch v with
+  | for_list ?l ?b ?s =>
+      let H := fresh "H" in
+      assert (H : nonneg (snd (fst x)))
+        by (change_no_check (nnL (for_list l b s)); apply for_list_nnL;
+            [ nn_leaf | let Hs := fresh "Hs" in intros ? ? Hs; apply nnL_elim in Hs; region ]);
+      clearbody x
+  | (if ?c then ?a else ?b) =>
+      lazymatch ty with
+      | (arr R * arr Z)%type =>
+          let H := fresh "H" in
+          assert (H : nonneg (fst x))
+            by (change_no_check (nnI (if c then a else b)); apply if_nnI;
+                [ let E := fresh "E" in intro E; region | region ]);
+          clearbody x
+      | _ => clearbody x
+      end
+  | _ =>
+      lazymatch ty with
+      | arr R => let H := fresh "H" in try (assert (H : nonneg x) by (unfold x; nn_arr)); clearbody x
+      | (R * R * R)%type =>
+          let H := fresh "H" in
+          try (assert (H : 0 <= fst (fst x)) by (unfold x; rewrite t_anad_fst; apply t_ana_nonneg; assumption));
+          clearbody x
+      | _ => clearbody x
+      end
+  end.
+
+(* no hypothesis on the spacings, the slownesses or the indices: every value written is guarded or analytic *)
+Lemma fteik2d_p2_nonneg (dx dz : R) grad iflag nx nz (slow tt G : arr R) S (vzero xsa : R) xsi (zsa : R) zsi :
+  0 <= vzero -> nonneg tt ->
+  nnO (fteik2d_p2 dx dz grad iflag nx nz slow tt G S vzero xsa xsi zsa zsi).
+Proof.
+  intros Hv Ht.
+  lazymatch goal with |- nnO ?t => let t' := eval cbv beta delta [fteik2d_p2] in t in
+    lazymatch t' with (let u := (if ?c then ?a else ?b) in _) =>
+      change_no_check (nnO (if c then a else b)); destruct c end end.
+  - region.
+  - region.
+Qed.
+
+(* MAIN 3, self-contained form: the composition fteik2d_p1 ; fteik2d_p2 exactly as in fteik2d *)
+Theorem init_nonneg_raw (dx dz : R) grad nx nz (slow : arr R) (xsrc zsrc : R) :
+  nonneg slow ->
+  let r1 := fteik2d_p1 dx dz grad nx nz slow xsrc zsrc in
+  let iflag := fst (fst (fst (fst (fst (fst (fst (fst (fst (fst r1))))))))) in
+  let nx' := snd (fst (fst (fst (fst (fst (fst (fst (fst (fst r1))))))))) in
+  let nz' := snd (fst (fst (fst (fst (fst (fst (fst (fst r1)))))))) in
+  let tt1 := snd (fst (fst (fst (fst (fst (fst (fst r1))))))) in
+  let G1 := snd (fst (fst (fst (fst (fst (fst r1)))))) in
+  let S1 := snd (fst (fst (fst (fst (fst r1))))) in
+  let vzero := snd (fst (fst (fst (fst r1)))) in
+  let xsa := snd (fst (fst (fst r1))) in
+  let xsi := snd (fst (fst r1)) in
+  let zsa := snd (fst r1) in
+  let zsi := snd r1 in
+  0 <= vzero /\
+  nonneg (fst (fst (fteik2d_p2 dx dz grad iflag nx' nz' slow tt1 G1 S1 vzero xsa xsi zsa zsi))).
+Proof.
+  intros Hs r1 iflag nx' nz' tt1 G1 S1 vzero xsa xsi zsa zsi.
+  assert (Hv : 0 <= vzero).
+  { unfold vzero, r1. cbv beta delta [fteik2d_p1]. cbv zeta. cbn [fst snd]. apply get_nonneg, Hs. }
+  split; [exact Hv|].
+  apply (fteik2d_p2_nonneg dx dz grad iflag nx' nz' slow tt1 G1 S1 vzero xsa xsi zsa zsi Hv).
+  unfold tt1, r1. cbv beta delta [fteik2d_p1]. cbv zeta. cbn [fst snd]. apply nonneg_full, Big_nonneg.
+Qed.
+
+(* MAIN 3 in the vocabulary of Solve2dProofs: i_tt = traveltime grid before the first sweep, i_vzero = slowness at the source *)
+Theorem init_nonneg (slow : arr R) (dz dx zsrc xsrc : R) grad :
+  nonneg slow ->
+  nonneg (i_tt slow dz dx zsrc xsrc grad) /\ 0 <= i_vzero slow dz dx zsrc xsrc grad.
+Proof.
+  intros Hs.
+  destruct (init_nonneg_raw dx dz grad (dim slow 1) (dim slow 0) slow xsrc zsrc Hs) as [Hv Ht].
+  split; [exact Ht | exact Hv].
+Qed.
+
+(* non-vacuity: the model ex2 above (2 x 2 cells of slowness 1), unit spacings, source in the middle of cell (0,0) *)
+Example init_nonneg_ex : nonneg (i_tt ex2 1 1 (1/2) (1/2) false) /\ 0 <= i_vzero ex2 1 1 (1/2) (1/2) false.
+Proof. apply init_nonneg, ex2_nonneg. Qed.
+
+(* ------------------------------------------------------------------------------------------ *)
+(* 4. the solver                                                                                *)
+(* ------------------------------------------------------------------------------------------ *)
+Lemma ptt_nonneg (slow : arr R) (dz dx zsrc xsrc : R) grad t :
+  0 < dz -> 0 < dx -> nonneg slow -> nonneg t -> nonneg (ptt slow dz dx zsrc xsrc grad t).
+Proof. intros Hdz Hdx Hs Ht. unfold ptt, pass2d. cbn [fst snd]. apply sweep2d_nonneg; assumption. Qed.
+
+(* MAIN 4: all models (any shape), any source, any number of sweeps, with or without gradient *)
+Theorem fteik2d_nonneg (slow : arr R) (dz dx zsrc xsrc : R) nsweep grad (tt ttgrad : arr R) (vzero : R) :
+  0 < dz -> 0 < dx -> nonneg slow ->
+  fteik2d slow dz dx zsrc xsrc nsweep grad = Ok (tt, ttgrad, vzero) ->
+  nonneg tt /\ 0 <= vzero.
+Proof.
+  intros Hdz Hdx Hs E. apply fteik2d_ok_inv in E as (_ & -> & ->).
+  destruct (init_nonneg slow dz dx zsrc xsrc grad Hs) as [H0 Hv]. split; [|exact Hv].
+  induction (Z.to_nat nsweep) as [|k IH]; [exact H0|].
+  rewrite iter_S. apply ptt_nonneg; assumption.
+Qed.
+
+(* the same with indices: slownesses given cell by cell, traveltimes read node by node *)
+Corollary fteik2d_nonneg_get (slow : arr R) (dz dx zsrc xsrc : R) nsweep grad (tt ttgrad : arr R) (vzero : R) :
+  0 < dz -> 0 < dx -> wf slow -> (1 <= dim slow 0)%Z -> (1 <= dim slow 1)%Z -> shape slow = [dim slow 0; dim slow 1] ->
+  (forall i j, (0 <= i < dim slow 0)%Z -> (0 <= j < dim slow 1)%Z -> 0 <= get 0 slow [i; j]) ->
+  fteik2d slow dz dx zsrc xsrc nsweep grad = Ok (tt, ttgrad, vzero) ->
+  (forall i j, (0 <= i <= dim slow 0)%Z -> (0 <= j <= dim slow 1)%Z -> 0 <= get 0 tt [i; j]) /\ 0 <= vzero.
+Proof.
+  intros Hdz Hdx Hw _ _ Hsh Hg E.
+  destruct (fteik2d_nonneg slow dz dx zsrc xsrc nsweep grad tt ttgrad vzero Hdz Hdx) as [Ht Hv]; [|exact E|].
+  - apply (nonneg_iff_get slow _ _ Hw Hsh), Hg.
+  - split; [|exact Hv]. intros i j _ _. apply get_nonneg, Ht.
+Qed.
+
+Lemma ex2_inside : inside2d ex2 1 1 (1/2) (1/2) = true.
+Proof.
+  unfold inside2d. cbn [dim shape ex2 nth]. cbn [nleb nmul nofZ NumR].
+  rewrite !andb_true_iff, !Rleb_true. lra.
+Qed.
+Example fteik2d_nonneg_ex :
+  exists tt G v, fteik2d ex2 1 1 (1/2) (1/2) 2 false = Ok (tt, G, v) /\ nonneg tt /\ 0 <= v.
+Proof.
+  destruct (fteik2d_raises_iff ex2 1 1 (1/2) (1/2) 2 false) as [_ H].
+  destruct (H ex2_inside) as [[[tt G] v] E]. exists tt, G, v. split; [exact E|].
+  apply (fteik2d_nonneg ex2 1 1 (1/2) (1/2) 2 false tt G v); [lra | lra | apply ex2_nonneg | exact E].
+Qed.
+
+Print Assumptions four_point_ge_tev.
+Print Assumptions four_point_radicand_nonneg.
+Print Assumptions sweep_nonneg.
+Print Assumptions sweep2d_nonneg.
+Print Assumptions fteik2d_p2_nonneg.
+Print Assumptions init_nonneg_raw.
+Print Assumptions init_nonneg.
+Print Assumptions fteik2d_nonneg.
+Print Assumptions fteik2d_nonneg_get.
